@@ -5,10 +5,12 @@ import asyncio
 import json
 import logging
 import sys
+import zlib
 
 import pjrpc
 from pjrpc.common import exceptions
 from pjrpc.server import AsyncDispatcher, Dispatcher
+from pjrpc.server.integration import aiohttp as _i1, flask as _i2, werkzeug as _i3  # noqa: F401  (imported BEFORE any configuration happens)
 
 logging.disable(logging.CRITICAL)
 EXECS = []
@@ -82,8 +84,9 @@ def reference(who, text_bytes, coro, loop):
     return None if ret is None else json.loads(ret[0])
 
 
-def classify(status, ctype, body, ref):
-    ct = 'none' if not ctype else ('json' if ctype.split(';')[0].strip().lower() == pjrpc.common.DEFAULT_CONTENT_TYPE else 'other')
+def classify(status, ctype, body, ref, also=()):
+    got = (ctype or '').split(';')[0].strip().lower()
+    ct = 'none' if not ctype else ('json' if (got == pjrpc.common.DEFAULT_CONTENT_TYPE or got in also) else 'other')
     if not body:
         b = 'empty'
     else:
@@ -149,7 +152,22 @@ def get(kind, key, factory):
     return _apps[(kind, key)]
 
 
+ALT_CT = 'application/json-rpc'
+
+
 def run(scn, loop):
+    """variant (by the content of the request, the same for every integration): the application configured another default
+    content type (pjrpc.set_default_content_type) after the integrations had been imported"""
+    alt = zlib.crc32(json.dumps({k: v for k, v in scn['req'].items() if k != 'integ'}, sort_keys=True).encode()) % 4 == 0
+    if alt:
+        pjrpc.set_default_content_type(ALT_CT)
+    try:
+        return _run(scn, loop)
+    finally:
+        pjrpc.set_default_content_type('application/json')
+
+
+def _run(scn, loop):
     r = scn['req']
     body = BODIES[r['body']]
     header = media_header(r['media'])
@@ -181,7 +199,9 @@ def run(scn, loop):
     n = len(EXECS)
     wrong = [w for w in EXECS if w != who]
     ref = reference(who, body, r['integ'] == 'aiohttp', loop)
-    e = classify(status, ctype, data, ref)
+    # (the aiohttp integration answers through web.json_response: "application/json" whatever default is configured - both count
+    # as the JSON content type there)
+    e = classify(status, ctype, data, ref, also=('application/json',) if r['integ'] == 'aiohttp' else ())
     e.update({'ev': 'Reply', 'execs': n if not wrong else -len(wrong)})
     return {'scn': scn, 'ev': [e]}
 
